@@ -17,7 +17,39 @@ ASSUMPTIONS = [
 
 
 def shards(tier, seed):
-    return [(tier, tag) for tag in G.ALL_TAGS]
+    return [(tier, tag) for tag in G.ALL_TAGS] + [(tier, "@oneLight")]
+
+
+def onelight_interplay(res, viol):
+    """'oneLight' is both a registered top-level message and the child element of setLightVector: parsing one
+    must not change what the other parses to, in either order, within one process"""
+    import indi.message as M
+
+    from mc import lib
+
+    top = '<oneLight name="l1">Ok</oneLight>'
+    vec_desc = G.skeleton("setLightVector", ("message",), 2)
+    vec = lib.build(vec_desc).to_string()
+    want_vec = X.view_of_desc(vec_desc)
+
+    def check(order):
+        for what in order:
+            res["evaluations"] += 1
+            try:
+                if what == "top":
+                    o = M.IndiMessage.from_string(top)
+                    cls = type(o).__module__ + "." + type(o).__name__
+                    if cls != "indi.message.one_light.OneLight" or X.view_of_msg(o) != ("oneLight", (("name", "l1"),), "Ok", ()):
+                        viol("kind-confusion", "toplevel-oneLight,order=%s" % "-".join(order), "top-level oneLight parsed to %s %r" % (cls, X.view_of_msg(o)), {"desc": vec_desc, "step": "onelight"})
+                else:
+                    o = M.IndiMessage.from_string(vec)
+                    if X.view_of_msg(o) != want_vec or any(type(c).__module__ != "indi.message.one_parts" for c in o.children):
+                        viol("kind-confusion", "setLightVector-children,order=%s" % "-".join(order), "setLightVector parsed to %r with children %r" % (X.view_of_msg(o), [type(c).__module__ for c in o.children]), {"desc": vec_desc, "step": "onelight"})
+            except Exception as e:
+                viol("parse-own-output-raises", "kind=%s,order=%s,%s" % ("oneLight" if what == "top" else "setLightVector", "-".join(order), type(e).__name__), repr(e), {"desc": vec_desc, "step": "onelight"})
+
+    check(("vec", "top", "vec"))
+    check(("top", "vec", "top"))
 
 
 def cases(tag, tier):
@@ -145,6 +177,14 @@ def run_shard(shard):
     tier, tag = shard
     res = {"evaluations": 0, "descs": 0, "violations": [], "samples": [], "counters": {}}
     seen_sig = {}
+    if tag == "@oneLight":
+        def viol0(clause, disc, what, replay):
+            if (clause, disc) not in seen_sig:
+                seen_sig[(clause, disc)] = {"clause": clause, "disc": disc, "what": what, "replay": replay, "count": 1}
+                res["violations"].append(seen_sig[(clause, disc)])
+
+        onelight_interplay(res, viol0)
+        return res
 
     def viol(clause, disc, what, replay):
         key = (clause, disc)
@@ -196,5 +236,8 @@ def replay(rep):
     def viol(clause, disc, what, replay):
         out.append({"clause": clause, "disc": disc, "what": what})
 
+    if rep.get("step") == "onelight":
+        onelight_interplay({"evaluations": 0}, viol)
+        return out
     check_one(_t(rep["desc"]), "quick", lib, M, viol, {})
     return out
